@@ -62,6 +62,10 @@ CLAIMS = {
             "Interleavings of SELECT/AUTH/data/REMEMBER scripts are generated at request granularity (all 20 interleavings of two 3-request scripts for a systematic set of script pairs, random interleavings of up to 8 connections); the recording handler reports conn.Database(), IsAuthrized() and the per-connection sync.Map token seen inside each call, which must match that connection's own history.",
             "Request-granularity interleavings; true parallelism is exercised by C14/C16. The thorough tier additionally builds with -race.",
             "DESIGN.md 4/C13"),
+    "C07": ("fault-injecting property-based testing (rapid) with an offender/witness pair on scripted connections + a child-process tier that judges process survival; oracle = no escaped panic, no stall, exact witness replies, process alive and accepting",
+            "Generated offender streams (boundary arguments for every numeric position, grammar instances of every command, empty/null/nested/non-array frames, nesting around the depth limit, mutated frames, disconnects) are interleaved request by request with a witness connection on the same server, against the example store and against a scripted handler with nil/wrong-shaped results; a fixed list of ~50 dangerous requests (allocation bombs, extreme counts, 8M-deep nesting, a concurrent same-hash burst) runs against the example server as a separate process under RLIMIT_AS whose wait status is the verdict.",
+            "A panic recovered in-process stands for a process abort (there is no recover in the server's loops). The concurrent burst depends on the scheduler. Whether a value comes back as status or bulk is not judged here (C04/C18).",
+            "DESIGN.md 4/C07"),
 }
 
 PENDING = {
